@@ -181,6 +181,11 @@ def hidi_inputs(rng, n):
            ("lower-case table", b"[hidi]\npool_rate = 3\ndiscovery_rate = 2\n"),
            ("dotted", b"HIDI.pool_rate = 3\nHIDI.discovery_rate = 2\n"), ("dotted too deep", b"HIDI.pool_rate.x = 3\n"),
            ("inline", b"HIDI = {pool_rate = 3, discovery_rate = 2, stabilization_period = 9223372036854775807}\n")]
+    # many keys the structure does not know (ignored by the decoder): whatever is done about them - nobody reads the log channel yet
+    for n in (127, 128, 129, 130, 200, 1000):
+        body = "".join("unknown_%d = %d\n" % (i, i) for i in range(n))
+        out.append(("%d unknown keys in [HIDI]" % n, ("[HIDI]\npool_rate = 120\ndiscovery_rate = 1\n" + body).encode()))
+        out.append(("%d unknown top-level keys" % n, (body + "[HIDI]\npool_rate = 120\ndiscovery_rate = 1\n").encode()))
     while len(out) < n:
         k = rng.random()
         if k < 0.45:
